@@ -1,6 +1,7 @@
 import DriverLib.Basic
 import DriverLib.C04
 import QV.Model.Grads
+import QV.Model.GradArgs
 open Lean Drv QV QV.Grads
 
 namespace Drv.C03
@@ -113,6 +114,99 @@ def kernelOp (j : Json) : R Json := do
     ("absH", .arr (zs.map (fun z => fOut (C.absH z)))),
     ("csigmoidH", pr (fun z => C.csigmoidH z.1 z.2)), ("csigmoid", pr (fun z => csigmoid z.1 z.2))]
 
+/-! ### extension round 2: call forms of `bases`, batch layout -/
+
+def parseBasesArg (j : Json) : R BasesArg := do
+  let form ← jStr (← fld j "form")
+  match form with
+  | "none" => return .none
+  | "str" => return .str (← jStr (← fld j "value")).toList
+  | "seq1" => return .seq1 ((← (← jArr (← fld j "value")).mapM jStr).toList.map String.toList)
+  | "seq2" =>
+    let rows ← (← jArr (← fld j "value")).mapM (fun r => do return ((← (← jArr r).mapM jStr).toList.map String.toList))
+    return .seq2 rows.toList
+  | _ => throw "bases: unknown form"
+
+def parseSamplesArg (j : Json) (n : Nat) : R (SamplesArg n) := do
+  let one ← jBool (← fld j "one")
+  let rows ← (← jArr (← fld j "rows")).mapM (fun s => Drv.C04.parseBits s n)
+  if one then
+    if h : rows.size = 1 then return .one rows[0] else throw "samples: a 1-D sample is one row"
+  else return .batch rows.toList
+
+/-- `gradient(samples, bases)` with the arguments in the caller's form (`gradientCplxArgs` / `gradientDMArgs`) -/
+def argsOp (j : Json) : R Json := do
+  let kind ← jStr (← fld j "kind")
+  let n ← jNat (← fld j "n"); let h ← jNat (← fld j "h")
+  let dict ← parseDict (← fld j "dict")
+  let keys := (← jStr (← fld j "keys")).toList
+  let samples ← parseSamplesArg (← fld j "samples") n
+  let bases ← parseBasesArg (← fld j "bases")
+  if kind == "cplx" then
+    let am ← parseRBM (← fld j "am") n h
+    let ph ← parseRBM (← fld j "ph") n h
+    match gradientCplxArgs am ph dict keys samples bases with
+    | .ok g => return Json.mkObj [("ok", .bool true), ("gradient", .arr #[outRBM g.1, outRBM g.2])]
+    | .error e => return Json.mkObj [("ok", .bool false), ("error", .str e.toString)]
+  else
+    let a ← jNat (← fld j "a")
+    let am ← parsePRBM (← fld j "am") n h a
+    let ph ← parsePRBM (← fld j "ph") n h a
+    let eps ← jFloat (← fld j "eps")
+    match gradientDMArgs am ph dict eps keys samples bases with
+    | .ok g => return Json.mkObj [("ok", .bool true), ("gradient", .arr #[outPRBM g.1, outPRBM g.2])]
+    | .error e => return Json.mkObj [("ok", .bool false), ("error", .str e.toString)]
+
+/-- all multi-indices of a shape, row-major -/
+def allIdx : List Nat → List (List Nat)
+  | [] => [[]]
+  | d :: ds => (List.range d).flatMap (fun i => (allIdx ds).map (fun r => i :: r))
+
+def ftOut (t : Except PyErr (FT Float)) : Json :=
+  match t with
+  | .ok t => Json.mkObj [("ok", .bool true), ("shape", .arr (t.shape.toArray.map nOut)),
+      ("data", fListOut ((allIdx t.shape).map t.get))]
+  | .error e => Json.mkObj [("ok", .bool false), ("error", .str e.toString)]
+
+def parseRowsArg (j : Json) (n : Nat) : R (RowsArg Float n) := do
+  let one ← jBool (← fld j "one")
+  let rows ← parseRows (← fld j "rows") n
+  if one && rows.size != 1 then throw "rows: a 1-D operand is one row"
+  return { batch := if one then none else some rows.size, row := fun i => rows[i]! }
+
+/-- the full tensors `gamma_grad(v, vp, ±1, expand)` and `pi_grad(v, vp, phase, expand)` (`gammaGradT`, `piGradT`) -/
+def layoutOp (j : Json) : R Json := do
+  let n ← jNat (← fld j "n"); let h ← jNat (← fld j "h"); let a ← jNat (← fld j "a")
+  let am ← parsePRBM (← fld j "am") n h a
+  let ph ← parsePRBM (← fld j "ph") n h a
+  let v ← parseRowsArg (← fld j "v") n
+  let vp ← parseRowsArg (← fld j "vp") n
+  let pi (phase expand : Bool) : Json :=
+    match piGradT am ph phase expand v vp with
+    | .ok (re, im) => .arr #[ftOut (.ok re), ftOut (.ok im)]
+    | .error e => .arr #[ftOut (.error e), ftOut (.error e)]
+  return Json.mkObj [
+    ("gamma_plus_expand", ftOut (gammaGradT am 1.0 true v vp)),
+    ("gamma_plus_noexpand", ftOut (gammaGradT am 1.0 false v vp)),
+    ("gamma_minus_expand", ftOut (gammaGradT ph (-1.0) true v vp)),
+    ("gamma_minus_noexpand", ftOut (gammaGradT ph (-1.0) false v vp)),
+    ("pi_am_expand", pi false true), ("pi_am_noexpand", pi false false),
+    ("pi_ph_expand", pi true true), ("pi_ph_noexpand", pi true false)]
+
+/-- `cplx.inverse` as coded at one point, and the complex per-sample gradient there (zero rotated amplitude probe) -/
+def zeroAmpOp (j : Json) : R Json := do
+  let n ← jNat (← fld j "n"); let h ← jNat (← fld j "h")
+  let am ← parseRBM (← fld j "am") n h
+  let ph ← parseRBM (← fld j "ph") n h
+  let dict ← parseDict (← fld j "dict")
+  let D ← parseSamples (← fld j "samples") n
+  return .arr (D.toArray.map (fun s =>
+    let u := cplxUpsi am ph dict s
+    let iv := C.invH u
+    let p := cplxGrad1 am ph dict s
+    Json.mkObj [("upsi", .arr #[fOut u.1, fOut u.2]), ("inv", .arr #[fOut iv.1, fOut iv.2]),
+      ("grad", .arr #[outRBM p.1, outRBM p.2])]))
+
 def handle (op : String) (j : Json) : Option (R Json) :=
   match op with
   | "c03.pos" => some (posOp j)
@@ -120,6 +214,9 @@ def handle (op : String) (j : Json) : Option (R Json) :=
   | "c03.dm" => some (dmOp j)
   | "c03.dm_aux" => some (dmAuxOp j)
   | "c03.kernel" => some (kernelOp j)
+  | "c03.args" => some (argsOp j)
+  | "c03.layout" => some (layoutOp j)
+  | "c03.zero_amp" => some (zeroAmpOp j)
   | _ => none
 
 end Drv.C03
